@@ -1784,7 +1784,10 @@ pub fn check_topk(
       return Err(TopkDiff {
         kind: "tie-not-resolved-by-segment-doc-order".into(),
         detail: json!({"position": i, "got": got[i], "expected": full[i], "loc_got": loc.get(&got[i].0).map(|l| [l.0, l.1]), "loc_expected": loc.get(&full[i].0).map(|l| [l.0, l.1])}),
-        only_omits_better: false,
+        only_omits_better: benign && !seen.contains(full[i].0.as_str()) && {
+          let min_got = got.last().map(|g| g.1 as f64).unwrap_or(f64::NEG_INFINITY);
+          full.iter().any(|(id, s)| !seen.contains(id.as_str()) && (*s as f64) > min_got && !approx(*s as f64, min_got, rel))
+        },
         only_omits: benign && !seen.contains(full[i].0.as_str()),
       });
     }
